@@ -437,7 +437,7 @@ pub fn check_state(st: &SubstState, ctx: &mut Ctx) {
     }
 }
 
-struct DSubst;
+pub struct DSubst;
 impl Driver for DSubst {
     type State = SubstState;
     fn name(&self) -> String {
